@@ -58,6 +58,7 @@ class Search:
         self.s_table = None
         self.inline = False
         self.functional = False
+        self.union = False
         self.s_known = None
         self._locate()
 
@@ -101,6 +102,30 @@ class Search:
                             self.s_table = p
                         elif p in marked and self.s_visited is None:
                             self.visited_name, self.s_visited = a.id, p
+                # union style: `V |= search(root, table)` / `V.update(search(root, table))` - every search is independent and
+                # the caller accumulates by union
+                st0 = call.parent
+                union_target = None
+                if isinstance(st0, ast.AugAssign) and isinstance(st0.op, ast.BitOr) and isinstance(st0.target, ast.Name) and st0.value is call:
+                    union_target = st0.target.id
+                elif isinstance(st0, ast.Call) and isinstance(st0.func, ast.Attribute) and st0.func.attr in ("update", "extend") and isinstance(st0.func.value, ast.Name) \
+                        and call in st0.args:
+                    union_target = st0.func.value.id
+                if self.s_visited is None and union_target is not None:
+                    self.functional = True
+                    self.union = True
+                    self.visited_name = union_target
+                    pend = set()
+                    for n in walk_no_nested_defs(g.node):
+                        if isinstance(n, ast.While) and isinstance(n.test, ast.Name):
+                            pend.add(n.test.id)
+                    local_marked = [m for m in marked if m not in pend and m not in g.params]
+                    for n in walk_no_nested_defs(g.node):
+                        if isinstance(n, ast.Assign) and len(n.targets) == 1 and isinstance(n.targets[0], ast.Name) and isinstance(n.value, (ast.Set, ast.SetComp)) \
+                                and n.targets[0].id not in pend and n.targets[0].id not in local_marked:
+                            local_marked.append(n.targets[0].id)
+                    if local_marked:
+                        self.s_visited = sorted(local_marked)[0]
                 # functional style: `V = search(root, table, V)` - the callee returns the accumulated set
                 st = call.parent
                 if self.s_visited is None and isinstance(st, ast.Assign) and len(st.targets) == 1 and isinstance(st.targets[0], ast.Name):
@@ -281,8 +306,10 @@ def r35_worklist(ctx, chk, rule3="C07.3", rule5="C07.5"):
     g = s.search_fn
     V = s.s_visited
     fn = g.node
-    if s.functional:
+    if s.functional and not s.union:
         _functional_accumulation(ctx, chk, s, rule5)
+    elif s.union:
+        chk.ok(rule5, s.f.where(s.search_call), "every root's search result is accumulated by union into `%s`" % s.visited_name)
     # kind of the visited collection (allocation in the entry function)
     pt = shared.solver_pointsto(ctx)
     vobjs = pt.get(("local", s.f.qual, s.visited_name))
